@@ -87,6 +87,10 @@ def make(pid, algos, quick_per_algo=12, thorough_per_algo=150, forces=None, salt
                         if a == "VROOM":
                             f.update(kind="binary", K=2, d=2)
                     out.append((seed + salt + extra_salt, 300000 + j, a, f))
+            if forces == [None] and a not in ("VROOM", "StroquOOL"):
+                # the largest arities: 2^3 children per split, five children in three dimensions
+                out.append((seed + salt + extra_salt, 300010, a, {"kind": "dimBinary", "d": 3}))
+                out.append((seed + salt + extra_salt, 300011, a, {"kind": "kary", "K": 5, "d": 3}))
         # a few runs in the thousands of rounds (what only shows once a cell holds > 1000 rewards, a counter passes 2^10, ...)
         for j, (a, f) in enumerate(long_runs):
             out.append((seed + salt + extra_salt, 400000 + j, a, dict(f)))
